@@ -492,6 +492,41 @@ def rel_program(rng, idx, shadow):
             "defs": {rel: d}, "body": body, "names": names, "after": 1, "budget": 400000}
 
 
+def twice_program(rng, idx):
+    """A goal VALUE that introduces variables (closure with a fresh block, fresh block, pattern-free disjunction) is
+    entered two times on one path: ["twice", g, g2] where g2 is g with its bound variables renamed apart (what the
+    specification evaluates).  The two query variables are only mentioned inside (closures are `move`)."""
+    def make(base):
+        y, z = base, base + 1
+        rel = lambda v: rng.choice([["eq", var(v), var(y)], ["eq", var(y), var(v)], ["eq", var(v), ["list", [var(y)]]],
+                                    ["eq", var(v), ["list", [var(y), var(z)]]]])
+        kind_goal = {
+            0: ["conde", [[rel(1)], [rel(2)]]],
+            1: ["conj", [["conde", [[rel(1)], [rel(2)]]], ["neq", var(y), ["num", 1]]]],
+            2: ["conde", [[rel(1), ["eq", var(z), ["num", 1]]], [rel(2), ["eq", var(z), ["num", 2]]], [rel(1), rel(2)]]],
+        }
+        return kind_goal
+    st = rng.getstate()
+    k = rng.randint(0, 2)
+    # only closures: a closure body is rebuilt at every entry.  (The variables of a plain fresh block are created
+    # when the goal VALUE is built, so cloning that value in Rust shares them - that is outside the DSL.)
+    wrap = "closure"
+    rng2 = rng
+    st = rng.getstate()
+    g1 = make(20)[k]
+    rng.setstate(st)
+    g2 = make(30)[k]
+    if wrap == "closure":
+        a = ["closure", [["fresh", [20, 21], [g1]]]]
+        b = ["closure", [["fresh", [30, 31], [g2]]]]
+    else:
+        a = ["fresh", [20, 21], [g1]]
+        b = ["fresh", [30, 31], [g2]]
+    body = [["twice", a, b]]
+    return {"id": "tw%d" % idx, "backend": "surface", "kind": "program", "mode": "query", "qvars": [1, 2],
+            "body": body, "names": {"30": "v20", "31": "v21"}, "after": 1, "budget": 200000}
+
+
 def shadow_program(rng, idx, shadow):
     """Nested fresh blocks with same-named variables in nested and sibling scopes."""
     names = {}
@@ -577,7 +612,19 @@ def grammar_program(rng, idx):
         if r < 0.57 and level < 2:
             return ["conj", [goal_(vars_, level + 1) for _ in range(rng.randint(1, 3))]]
         if r < 0.72 and level < 2:
-            return ["conde", [[goal_(vars_, level + 1) for _ in range(rng.randint(1, 2))] for _ in range(rng.randint(2, 3))]]
+            # every clause operator of the grammar; now and then a clause is the bare literal `true` / `false`
+            op = rng.choice(["conde", "conde", "conde", "cond", "conda", "condu", "onceo", "dfs"])
+
+            def clause_():
+                if rng.random() < 0.2:
+                    return [rng.choice([["fail"], ["fail"], ["succeed"]])]
+                if op == "dfs":
+                    return [rng.choice([["eq", var(rng.choice(vars_)), term_(vars_, 1)], ["neq", var(rng.choice(vars_)), ["num", 1]],
+                                        ["cond", [[["eq", var(rng.choice(vars_)), ["num", j]]] for j in range(rng.randint(1, 3))]]])
+                            for _ in range(rng.randint(1, 2))]
+                return [goal_(vars_, level + 1) for _ in range(rng.randint(1, 2))]
+
+            return [op, [clause_() for _ in range(rng.randint(1 if op in ("onceo", "dfs") else 2, 3))]]
         if r < 0.82 and level < 2:
             state["next"] += 1
             i = state["next"]
